@@ -13,7 +13,7 @@ From Coq Require Import List Bool NArith Strings.String.
 From Falco Require Import Base.Bytes Model.FmtTok Model.FmtNorm
   Proofs.FmtRestyle Proofs.FmtSort Proofs.FmtExamples
   Proofs.FmtIdem1 Proofs.FmtIdem2 Proofs.FmtIdem4 Proofs.FmtIdem5 Proofs.FmtIdem7.
-From Falco Require Model.Ast Proofs.FmtTreeExpr Proofs.FmtTreeNorm Proofs.FmtTreeProgram.
+From Falco Require Model.Ast Proofs.FmtTreeExpr Proofs.FmtTreeNorm Proofs.ParseProgram3 Proofs.ParseProgram5 Proofs.FmtTreeProgram Proofs.FmtExamples.
 Import ListNotations.
 
 (* every configuration (sort_declaration included), every token stream *)
@@ -41,19 +41,38 @@ Proof. exact restyle_text_idem. Qed.
 Theorem C14_example_idem : norm ex_conf (norm ex_conf ex_src) = norm ex_conf ex_src.
 Proof. exact ex_norm_idem. Qed.
 
-(* tree level (parser model of C02, Proofs/FmtTreeNorm.v): the documented normalisation of expressions and of
-   return values is idempotent.  PARTIAL: expressions and the return statement, not yet the recursion over
-   statements and declarations (no induction principle for the nested statement type is set up). *)
-Theorem C14_tree_expr_idem_partial :
+(* tree level (parser model of C02, Proofs/FmtTreeNorm.v): the documented normalisation is idempotent - on expressions
+   and return values for every tree, on statements / blocks / chains / case lists and on whole programs for every
+   canonical one (the image of the parser, C02_program_roundtrip), by induction over the canonicity derivation *)
+Theorem C14_tree_expr_idem :
   forall c e, FmtTreeNorm.nexpr c (FmtTreeNorm.nexpr c e) = FmtTreeNorm.nexpr c e.
 Proof. exact FmtTreeProgram.nexpr_idem. Qed.
 
-Theorem C14_tree_return_idem_partial :
+Theorem C14_tree_return_idem :
   forall c fn v, FmtTreeNorm.nret c fn (FmtTreeNorm.nret c fn v) = FmtTreeNorm.nret c fn v.
 Proof. exact FmtTreeProgram.nret_idem. Qed.
 
-Print Assumptions C14_tree_expr_idem_partial.
-Print Assumptions C14_tree_return_idem_partial.
+Theorem C14_tree_stmt_idem :
+  forall c fok s nx, ParseProgram3.cstmt fok s nx -> forall fn,
+    FmtTreeNorm.nstmt c fn (FmtTreeNorm.nstmt c fn s) = FmtTreeNorm.nstmt c fn s.
+Proof. exact (fun c fok => proj1 (FmtTreeProgram.norm_fixed_point c fok)). Qed.
+
+Theorem C14_tree_idem :
+  forall c fok ds, ParseProgram5.cprog fok ds ->
+    FmtTreeNorm.norm_vcl c (FmtTreeNorm.norm_vcl c (Ast.Vcl ds false)) = FmtTreeNorm.norm_vcl c (Ast.Vcl ds false).
+Proof. exact FmtTreeProgram.tree_idem. Qed.
+
+(* non-vacuity: the witness program of C02 under a configuration where every rewrite applies *)
+Theorem C14_tree_idem_example :
+  FmtTreeNorm.norm_vcl FmtExamples.ex_conf (FmtTreeNorm.norm_vcl FmtExamples.ex_conf (Ast.Vcl ParseProgram5.ex_prog false))
+  = FmtTreeNorm.norm_vcl FmtExamples.ex_conf (Ast.Vcl ParseProgram5.ex_prog false).
+Proof. exact FmtTreeProgram.ex_prog_tree_idem. Qed.
+
+Print Assumptions C14_tree_expr_idem.
+Print Assumptions C14_tree_return_idem.
+Print Assumptions C14_tree_stmt_idem.
+Print Assumptions C14_tree_idem.
+Print Assumptions C14_tree_idem_example.
 Print Assumptions C14_norm_idem.
 Print Assumptions C14_run_idem.
 Print Assumptions C14_sort_idem.
